@@ -3,7 +3,7 @@ from __future__ import annotations
 
 from hypothesis import strategies as st
 
-from vp.core import Disc, Recorder, derive_seed, hyp_collect, hyp_shrink, escape_bucket, canon
+from vp.core import Disc, Recorder, derive_seed, hyp_collect, escape_bucket
 from vp.gen import xml as gx
 from vp.ref import xdm
 
@@ -480,7 +480,7 @@ def jobs(tier, seed):
     q = tier == 'quick'
     out = []
     nt, no = (9, 6) if q else (10, 6)
-    per_t, per_o = (900, 700) if q else (14000, 10000)
+    per_t, per_o = (1800, 1400) if q else (20000, 16000)
     me = 10 if q else 24
     for i in range(nt):
         out.append({'check': 'tree', 'shard': i, 'n': per_t, 'max_elems': me, 'seed': derive_seed(seed, 'C02', 'tree', i)})
@@ -497,7 +497,7 @@ def run_job(job, rec: Recorder):
 
 def shrink_job(job, bucket, budget):
     chk = job['check']
-    return hyp_shrink(_strategy(job), _JUDGES[chk], bucket, job['n'], job['seed'], budget)
+    return gx.find_and_minimize(_strategy(job), _JUDGES[chk], bucket, job['n'], job['seed'], min(budget, 250))
 
 
 def judge(check, case):
